@@ -256,7 +256,7 @@ func init() {
 		reportLockOrder(r, la, "lock-order")
 		// "an operation on one key never changes or hides another key, even when
 		// both live in the same bucket and share stored prefix bytes"
-		r.support([]string{"splice", "samevalue-guard", "opaque-value", "pool-order", "predict", "gc-not-current", "retain", "free-after-index"})
+		r.support(grpMap, grpBackpressure, []string{"splice", "samevalue-guard", "opaque-value", "pool-order", "predict", "gc-not-current", "retain", "free-after-index", "pool-flush-complete"})
 	},
 		"Decides structural necessary conditions of 'keys do not interfere / lookups after a Put see it', not linearizability over all schedules: in Index.Put/Update/Remove the read of the bucket's record list and the store of the new list happen in one exclusive bucketLk section and the stored list derives from that read; in each Flush the pool swap is one exclusive section, curPool is written only by Flush and (index) not overwritten before the bucket table is updated after a successful write; cache lookups report a miss only after both pools; every present-outcome is behind the full-key comparison; no unprotected conflicting access pair among the foreground/flusher roots; lock order acyclic. Not covered: linearizability itself, same-key write/write interleavings, visibility timing.")
 }
